@@ -63,7 +63,7 @@ def cases(ctx):
             pub = rng.choice(keys)
             dup = rng.random() < 0.2
             base = TT.leaf_script(rng)
-            it = iter([base if dup and rng.random() < 0.5 else TT.leaf_script(rng, big=rng.random() < 0.05) for _ in range(n)])
+            it = iter([base if dup and rng.random() < 0.5 else TT.leaf_script(rng, big=rng.random() < 0.25) for _ in range(n)])
             wrap = (lambda: rng.random() < 0.15)
             tree = TT.fill(sh, it, wrap)
             ctx.count(f'shape-{n}')
